@@ -136,7 +136,7 @@ for _g, (_what, _props) in TIE.items():
             CLAIMED[_p]["text"] += (" Translator tie: %s are re-translated from the current Rust source on every run (tools/gen_logic.py -> coq/Gen/%sGen.v) and proved equal to the model on all inputs (coq/Proofs/Tie%s.v, restated as %s_model_is_translation_of_source); a function the translator cannot read, or whose tie proof no longer goes through, fails this check closed." % (_what, _g, _g, _p))
             if "gen_logic.py" not in CLAIMED[_p]["note"]:
                 CLAIMED[_p]["note"] += " Also trusted: tools/gen_logic.py + tools/rustmini.py (Rust-subset parser/translator and its tables naming model vocabulary for Rust paths, fields, library calls and error texts)."
-            if "translator" not in CLAIMED[_p]["technique"]:
+            if "source-to-Gallina" not in CLAIMED[_p]["technique"]:
                 CLAIMED[_p]["technique"] += " + source-to-Gallina translation of the decision functions with a proved tie"
 
 NA_REASON = "check not built yet in this session; see DESIGN.md section 5 for the planned model and theorems"
